@@ -29,6 +29,14 @@ RULE = ("ops: layout (frame 1..64 bytes, 0..8 in-frame signals, Intel/Motorola m
         "Conversions (key 'via'): dlc and compress are also observed through canmatrix.convert.convert / the canconvert command line "
         "(DBC in, DBC out) with the options compressFrame (names and globs, naming the frame or not) and recalcDLC max/force, alone and "
         "together, the frame among 0..3 others. "
+        "Roles: in every stream the signals also play the parts signals play in a frame - one (rarely two) is the multiplexer, others are "
+        "multiplexed with a selector value, some frames carry scaling/limits (no business of the layout utilities; the descriptors carry "
+        "the roles, the frame is built with them, through DBC they are written as M / m<k>); the exhaustive gap patterns are asked with "
+        "every signal in turn as the multiplexer; histories also switch a signal's role in place (step 'role'). "
+        "Conversions also carry the options that cut or drop frames by length before compressFrame/recalcDLC act: cutLongFrames=N (the "
+        "judged frame longer than N: its signals beyond byte N taken out by the generator's bookkeeping, length forced; not longer than "
+        "N while another frame of the matrix is: its length is its own business, judged as strategy max) and skipLongDlc=M (M not below "
+        "the judged frame's length); with these the resulting frame's usage report is judged too (op layout). "
         "Non-trivial = distinct case with at least one signal and (for compress/dummies) at least one gap.")
 EXHAUSTIVE = {"quick": False, "thorough": False}
 PARTIAL = ["compress: the theorems (compress_big_*, compress_little_*) are about frames of one byte order with disjoint, uniquely named "
@@ -65,6 +73,34 @@ def gen_frame(rng, disjoint, maxn=8, order=None, sizes=None):
                     break
         sigs = out
     return {"size": n, "sigs": sigs}
+
+
+def dress(rng, fd, p=0.5, two=True, sc=True):
+    """the parts signals play in a frame (multiplexer, multiplexed with a selector value) and their scaling are no business of
+    the layout utilities: frames carry them"""
+    sigs = fd["sigs"]
+    if not sigs or rng.random() >= p:
+        return fd
+    k = rng.randrange(len(sigs))
+    if rng.random() < 0.85:
+        sigs[k][6] = True
+        if two and len(sigs) > 2 and rng.random() < 0.1:
+            sigs[(k + 1) % len(sigs)][6] = True
+    for d in sigs:
+        if not d[6] and rng.random() < 0.5:
+            d[7] = rng.randint(0, 3)
+    if sc and rng.random() < 0.2:
+        fd["sc"] = True
+    return fd
+
+
+def ref_cut(size, sigs, n):
+    """cutLongFrames=n: a frame longer than n bytes loses the signals that reach beyond byte n and gets the smallest length
+    holding the rest; any other frame is left alone"""
+    if size <= n:
+        return size, [list(d) for d in sigs], False
+    rest = [list(d) for d in sigs if d[1] + d[2] <= 8 * n]
+    return ref_need(rest), rest, True
 
 
 # ---------------------------------------------------------------------------------------------
@@ -184,6 +220,11 @@ def ref_step(st, step):
         sigs[step[1]][0] = step[2]
     elif k == "add":
         sigs.append(list(step[1]))
+    elif k == "role":
+        if not step[1] < len(sigs):
+            return None
+        sigs[step[1]][6] = step[2] == "Multiplexor"
+        sigs[step[1]][7] = step[2] if isinstance(step[2], int) else None
     elif k == "del":
         if not step[1] < len(sigs):
             return None
@@ -243,6 +284,7 @@ def gen_history(rng, final_op=None):
         # declared longer than the signals need (a frame with room at its end), or not the length the signals were placed for
         f0["size"] = rng.choice([f0["size"] + rng.randint(1, 4), 8, 12, 64, max(ref_need(f0["sigs"]), 1)])
         f0["size"] = max(min(f0["size"], 64), ref_need(f0["sigs"]))
+    dress(rng, f0, p=0.4)
 
     def other():
         return gen_frame(rng, True, maxn=3, sizes=[1, 2, 8, 12])
@@ -277,8 +319,11 @@ def gen_history(rng, final_op=None):
                 if ref_disjoint([d] + [e for j, e in enumerate(st["sigs"]) if j != k]):
                     break
             return ["move", k, d[1], d[2], d[3]]
-        if r < 0.78 and st["sigs"]:
+        if r < 0.75 and st["sigs"]:
             return ["rename", rng.randrange(len(st["sigs"])), "r%d" % i]
+        if r < 0.78 and st["sigs"]:
+            # a signal becomes the multiplexer / a multiplexed signal / a plain signal, in place
+            return ["role", rng.randrange(len(st["sigs"])), rng.choice(["Multiplexor", "Multiplexor", None, 0, 2])]
         if r < 0.86:
             d = None
             for _ in range(6):
@@ -287,6 +332,10 @@ def gen_history(rng, final_op=None):
                     d[3] = st["sigs"][0][3]
                 if ref_disjoint([d] + st["sigs"]):
                     break
+            if rng.random() < 0.25:
+                d[6] = True
+            elif rng.random() < 0.25:
+                d[7] = rng.randint(0, 3)
             return ["add", d]
         if r < 0.92 and st["sigs"]:
             return ["del", rng.randrange(len(st["sigs"]))]
@@ -347,13 +396,19 @@ def gen_history(rng, final_op=None):
 
 
 def gen_via(rng):
-    """dlc / compress asked through canmatrix.convert.convert or the command line: options compressFrame and recalcDLC"""
+    """dlc / compress asked through canmatrix.convert.convert or the command line: options compressFrame and recalcDLC, and the
+    options that act on frames by their length before these (cutLongFrames, skipLongDlc)"""
     # one byte order (the domain of compress) or the orders as they come (a frame compress must leave alone)
     fd = gen_frame(rng, True, maxn=5, order=rng.choice([True, True, False, False, None]), sizes=[1, 2, 3, 4, 8, 8, 8, 12, 16, 64])
+    dress(rng, fd, p=0.4, two=False, sc=False)
     need = ref_need(fd["sigs"])
+    bylen = rng.random() < 0.35
     compress = None if rng.random() < 0.25 else rng.choice([["F"], ["F"], ["F"], ["*"], ["F*"], ["F", "O1"], ["O*"], ["O1", "F"], ["Fx"], ["?"]])
-    strategy = rng.choice([None, "max", "max", "force"]) if compress else rng.choice(["max", "force"])
-    if compress:
+    if bylen:
+        strategy = rng.choice([None, None, "max", "force"])
+    else:
+        strategy = rng.choice([None, "max", "max", "force"]) if compress else rng.choice(["max", "force"])
+    if compress or bylen:
         # the compress clause speaks of signals inside the frame: the declared length contains them, often with room to spare
         fd["size"] = rng.choice([fd["size"], need, 8, min(64, need + rng.randint(0, 6)), 64])
         fd["size"] = max(fd["size"], need, 1)
@@ -361,18 +416,49 @@ def gen_via(rng):
         fd["size"] = rng.choice([fd["size"], 0, rng.randint(0, 64), need])
 
     def other():
-        return gen_frame(rng, True, maxn=3, order=rng.choice([True, False]), sizes=[1, 2, 8, 12])
-    before = [other() for _ in range(rng.choice([0, 0, 1, 2]))]
+        o = gen_frame(rng, True, maxn=3, order=rng.choice([True, False]), sizes=[1, 2, 8, 12] + ([16, 64] if bylen else []))
+        if bylen and rng.random() < 0.3:
+            o["size"] = min(64, o["size"] + rng.randint(1, 8))
+        return o
+    before = [other() for _ in range(rng.choice([0, 0, 1, 2] if not bylen else [0, 1, 1, 2]))]
     after = [other() for _ in range(rng.choice([0, 0, 1]))]
     api = "cli" if rng.random() < 0.3 else "convert"
     named = compress is not None and any(p in ("F", "*", "F*", "?") for p in compress)
-    packed = named and ref_compressible(fd["size"], fd["sigs"])
     via = {"api": api, "compressFrame": compress, "recalcDLC": strategy}
-    if named:
-        yield {"op": "compress", "c": {"f": fd, "via": via, "before": before, "after": after}}
+    size, sigs, cut = fd["size"], fd["sigs"], False
+    if bylen:
+        lens = sorted({o["size"] for o in before + after} | {fd["size"]})
+        if rng.random() < 0.8:
+            base = rng.choice(lens)
+            via["cutLongFrames"] = max(0, base + rng.choice([-1, -1, 0, 0, 1])) if rng.random() < 0.8 else rng.choice([1, 2, 4, 8, 63])
+            size, sigs, cut = ref_cut(size, sigs, via["cutLongFrames"])
+        else:
+            # frames longer than M are dropped; the judged one stays
+            via["skipLongDlc"] = rng.choice([fd["size"], fd["size"], fd["size"] + 1, 8, 64] + [x for x in lens if x >= fd["size"]])
+            via["skipLongDlc"] = max(via["skipLongDlc"], fd["size"])
+        if rng.random() < 0.15 and "cutLongFrames" in via and via["cutLongFrames"] >= fd["size"]:
+            via["skipLongDlc"] = rng.choice([fd["size"], 64])
+    packed = named and ref_compressible(size, sigs)
+    if named and (ref_inside(size, sigs) or not bylen):
+        # the frame as it stands when compress is called (after the cut)
+        yield {"op": "compress", "c": {"f": dict(fd, size=size, sigs=sigs), "via": dict(via, orig=fd["sigs"], size0=fd["size"]), "before": before, "after": after}}
+    now_sigs = ref_compress(sigs) if packed else sigs
     if strategy:
-        now = {"size": fd["size"], "sigs": ref_compress(fd["sigs"]) if packed else fd["sigs"]}
-        yield {"op": "dlc", "c": {"f": now, "strategy": strategy, "before": before, "after": after, "via": dict(via, orig=fd["sigs"])}}
+        yield {"op": "dlc", "c": {"f": {"size": size, "sigs": now_sigs}, "strategy": strategy, "before": before, "after": after,
+                                  "via": dict(via, orig=fd["sigs"], size0=fd["size"])}}
+    elif bylen:
+        if cut and not packed:
+            # exactly what the cut is to do: the length forced to what the remaining signals need
+            c = {"f": {"size": fd["size"], "sigs": now_sigs}, "strategy": "force"}
+        else:
+            # nobody asked for another length of this frame
+            c = {"f": {"size": size, "sigs": now_sigs}, "strategy": "max"}
+        yield {"op": "dlc", "c": dict(c, before=before, after=after, via=dict(via, orig=fd["sigs"], size0=fd["size"]))}
+    if bylen:
+        end = ref_need(now_sigs) if strategy == "force" else max(size, ref_need(now_sigs)) if strategy == "max" else size
+        if ref_inside(end, now_sigs):
+            yield {"op": "layout", "c": {"f": {"size": end, "sigs": now_sigs}, "before": before, "after": after,
+                                         "via": dict(via, orig=fd["sigs"], size0=fd["size"])}}
 
 
 def gen(rng, tier, shard, nshards):
@@ -380,13 +466,14 @@ def gen(rng, tier, shard, nshards):
     for _ in range(total):
         k = rng.random()
         if k < 0.25:
-            yield {"op": "layout", "c": {"f": gen_frame(rng, rng.random() < 0.5)}}
+            yield {"op": "layout", "c": {"f": dress(rng, gen_frame(rng, rng.random() < 0.5), p=0.3)}}
         elif k < 0.5:
-            yield {"op": "dummies" if rng.random() < 0.7 else "dummies2", "c": {"f": gen_frame(rng, rng.random() < 0.8, sizes=[1, 2, 3, 4, 8, 8, 12, 64]), "name": "Fr"}}
+            yield {"op": "dummies" if rng.random() < 0.7 else "dummies2", "c": {"f": dress(rng, gen_frame(rng, rng.random() < 0.8, sizes=[1, 2, 3, 4, 8, 8, 12, 64]), p=0.3), "name": "Fr"}}
         elif k < 0.7:
             n = rng.randint(1, 64)
             fd = {"size": rng.choice([0, rng.randint(0, 64), n]),
                   "sigs": [F.rand_sig(rng, "s%d" % j, n, allow_float=False) for j in range(rng.randint(0, 6))]}
+            dress(rng, fd, p=0.3)
             # the frame stands in a matrix among other frames (each frame's length is its own business)
             def other():
                 m = rng.randint(1, 64)
@@ -406,6 +493,7 @@ def gen(rng, tier, shard, nshards):
                     used |= a
                 if not ok:
                     continue
+            dress(rng, fd, p=0.5)
             yield {"op": "compress", "c": {"f": fd}}
     if shard == 0:
         for n in range(0, 71):
@@ -434,6 +522,11 @@ def gen(rng, tier, shard, nshards):
                     if len(sigs) <= 4:
                         yield {"op": "compress", "c": {"f": fd}}
                         yield {"op": "layout", "c": {"f": fd}}
+                        # the same pattern with every signal in turn as the multiplexer of the frame
+                        for m in range(len(sigs)):
+                            md = {"size": nbytes, "sigs": [list(d) for d in sigs]}
+                            md["sigs"][m][6] = True
+                            yield {"op": "compress", "c": {"f": md}}
     # frames with a past: every op asked of ONE Frame object after earlier calls and edits on the same object
     for _ in range({"quick": 1600, "thorough": 24000}[tier] // nshards):
         for case in gen_history(rng):
@@ -460,7 +553,7 @@ def neighbours(case, rng, shard, nshards):
         if case["op"] == "fit":
             yield {"op": "fit", "c": [rng.randint(0, 70), rng.random() < 0.5]}
         elif case["op"] == "compress":
-            yield {"op": "compress", "c": {"f": gen_frame(rng, True, maxn=5, order=rng.random() < 0.5, sizes=[1, 2, 3, 4, 8])}}
+            yield {"op": "compress", "c": {"f": dress(rng, gen_frame(rng, True, maxn=5, order=rng.random() < 0.5, sizes=[1, 2, 3, 4, 8]))}}
         elif case["op"] == "dlc":
             n = rng.randint(1, 64)
             yield {"op": "dlc", "c": {"f": {"size": rng.randint(0, 64), "sigs": [F.rand_sig(rng, "s%d" % j, n, allow_float=False) for j in range(rng.randint(0, 4))]},
@@ -523,6 +616,9 @@ def do_step(fr, db, step):
         fr.signals[step[1]].name = step[2]
     elif k == "add":
         fr.add_signal(F.mksignal(step[1]))
+    elif k == "role":
+        sg = fr.signals[step[1]]
+        sg.multiplex = sg.multiplex_setter(step[2])
     elif k == "del":
         del fr.signals[step[1]]
     elif k == "frname":
@@ -555,15 +651,17 @@ def with_past(h):
     return fr, db
 
 
-def via_convert(c, orig_sigs):
+def via_convert(c, orig_sigs=None):
     """the matrix written as DBC, converted with the options of the case (convert() or the command line), read again"""
     via = c["via"]
+    if "orig" in via:
+        orig_sigs = via["orig"]
     db = cm.CanMatrix()
     k = 0
     for od in c.get("before", []):
         k += 1
         db.add_frame(F.mkframe(od, name="O%d" % k, arbid=0x700 + k))
-    db.add_frame(F.mkframe({"size": c["f"]["size"], "sigs": orig_sigs}, name="F"))
+    db.add_frame(F.mkframe({"size": via.get("size0", c["f"]["size"]), "sigs": orig_sigs}, name="F"))
     for od in c.get("after", []):
         k += 1
         db.add_frame(F.mkframe(od, name="O%d" % k, arbid=0x700 + k))
@@ -582,6 +680,9 @@ def via_convert(c, orig_sigs):
                     args.append("--compressFrame=" + ",".join(via["compressFrame"]))
                 if via.get("recalcDLC"):
                     args.append("--recalcDLC=" + via["recalcDLC"])
+                for o in ("cutLongFrames", "skipLongDlc"):
+                    if via.get(o) is not None:
+                        args.append("--%s=%d" % (o, via[o]))
                 res = CliRunner().invoke(canmatrix.cli.convert.cli_convert, args + [src, dst])
                 if isinstance(res.exception, Timeout):
                     raise res.exception
@@ -595,6 +696,9 @@ def via_convert(c, orig_sigs):
                     opts["compressFrame"] = ",".join(via["compressFrame"])
                 if via.get("recalcDLC"):
                     opts["recalcDLC"] = via["recalcDLC"]
+                for o in ("cutLongFrames", "skipLongDlc"):
+                    if via.get(o) is not None:
+                        opts[o] = str(via[o]) if via["api"] == "convert" and via[o] % 2 else via[o]
                 canmatrix.convert.convert(src, dst, **opts)
             with open(dst, "rb") as f:
                 db2 = canmatrix.formats.load_flat(f, "dbc")
@@ -628,6 +732,8 @@ def observe_(op, c):
             return {"ok": [sig5(s) for s in via_convert(c, c["f"]["sigs"]).signals]}
         if op == "dlc":
             return via_convert(c, c["via"]["orig"]).size
+        if op == "layout":
+            return [[s.name for s in cell] for cell in via_convert(c).get_frame_layout()]
         raise ValueError(op)
     db = None
     if "h" in c:
@@ -695,6 +801,12 @@ def features(case, impl):
         v = c["via"]
         yield "via:%s:%s" % (case["op"], v["api"])
         yield "via:%s:compressFrame=%s,recalcDLC=%s" % (case["op"], "no" if not v.get("compressFrame") else "yes", v.get("recalcDLC") or "no")
+        if v.get("cutLongFrames") is not None:
+            n, own = v["cutLongFrames"], v.get("size0", c["f"]["size"])
+            longer = any(o["size"] > n for o in c.get("before", []) + c.get("after", []))
+            yield "via:%s:cut:%s" % (case["op"], "this frame" + (" and another" if longer else "") if own > n else "another frame only" if longer else "none")
+        if v.get("skipLongDlc") is not None:
+            yield "via:%s:skipLongDlc" % case["op"]
         if case["op"] == "dlc":
             yield "via:dlc:declared %s needed" % ("<" if c["f"]["size"] < ref_need(c["f"]["sigs"]) else "=" if c["f"]["size"] == ref_need(c["f"]["sigs"]) else ">")
     if case["op"] == "fit":
@@ -703,6 +815,9 @@ def features(case, impl):
         yield "dlc:api=" + c["api"]
     f = case["c"]["f"]
     yield "%s:nsigs=%s" % (case["op"], len(f["sigs"]) if len(f["sigs"]) < 4 else "4+")
+    roles = [d for d in f["sigs"] if len(d) > 7 and (d[6] or d[7] is not None)]
+    if roles:
+        yield "%s:roles=%s" % (case["op"], "multiplexer" if any(d[6] for d in roles) else "multiplexed only")
     orders = {s[3] for s in f["sigs"]}
     yield "%s:%s" % (case["op"], "mixed" if len(orders) == 2 else "intel" if orders == {True} else "motorola" if orders else "empty")
     if case["op"] == "compress" and "ok" in impl:
